@@ -84,16 +84,19 @@ CHECKS = {
              "message on its own; the adapter read loop always ends in a closed state, cleanly only between whole frames. The models keep Go's partiality explicit "
              "(Panic results for out-of-range slices), so totality is a real theorem about the bounds checks. Tied to the code by "
              "a correspondence check that feeds boundary-value, exhaustive-small and mutated inputs to every real entry point "
-             "(embedded NATS/STOMP brokers, httptest, net.Pipe) and replays them on the model; partial: the Thrift layer under "
-             "the header is a parameter assumed graceful. The framing layer and the HTTP paths are inside the model: bufio.Reader + "
+             "(embedded NATS/STOMP brokers, httptest, net.Pipe) and replays them on the model. The Thrift message layer under the header is no longer assumed: "
+             "thrift_layer_of = FBaseProcessor.Process after the header over the generated Read through FProtocol on TBinaryProtocol and "
+             "TCompactProtocol incl. Skip, proved graceful on EVERY byte string for every environment, processor map and handler with fuel 4n+8 "
+             "(no reader can loop or recurse without consuming input; FProtocol's nesting limit 64 and container-size guard are in the model), "
+             "and the message receivers and the simple server are instantiated for binary and compact without the gracefulness hypothesis. The framing layer and the HTTP paths are inside the model: bufio.Reader + "
              "TFramedTransport.Read (any state/buffer length: total, progress, frame size never above maxLength), readFrame/readRequestFrame "
              "proved independent of how the connection chunks the stream and equal to the flat reference, the adapter read loop and "
              "FSimpleServer.accept proved to end without crash on every stream/chunking/terminal error (the abstract adapter loop is a proved "
              "refinement); fHTTPTransport's response path (every status/body, base64 transcribed with a round-trip proof) never panics and "
              "accepts exactly well-formed replies; the handler's payload-limit header is total and enforced exactly. Tied by chunked delivery "
              "through net.Pipe/TSocket, a scripted transport, a real TCP FSimpleServer, httptest servers returning arbitrary status/body, and a "
-             "differential check of the base64 transcription. 22 theorems, no axioms.",
-        note="Trusted: Coq kernel + vm_compute; harness as test equipment; Apache Thrift readers assumed graceful (exercised only); messages < 2^31 bytes; "
+             "differential check of the base64 transcription. 36 theorems, no axioms.",
+        note="Trusted: Coq kernel + vm_compute; harness as test equipment; the handler returns values that can be written; TJSONProtocol has no Coq model (hostile JSON bodies under the direct oracle: no crash, no hang, bounded allocation); no stack model (nesting bounded by 64 structs x depth of the declared types); messages < 2^31 bytes; "
              "a connection read returns >=1 byte or an error; net/http and the server-side streaming base64 decoder outside the model (abstract inputs); "
              "encoding/base64 and bufio transcribed from the Go standard library and compared on every run.",
         technique="Coq totality proofs over a Go-partiality model + chunking-independence refinement proofs (chunked -> flat stream) + vm_compute "
